@@ -1291,6 +1291,12 @@ func iterationCanSkip(fi *fnInfo, S *ssa.BasicBlock) bool {
 // iterationCanSkipUnless: like iterationCanSkip, but an iteration that skips the append by way of a block for which
 // excused holds does not count (the skip happens only in a case the rule does not speak about).
 func iterationCanSkipUnless(fi *fnInfo, S *ssa.BasicBlock, excused func(*ssa.BasicBlock) bool) bool {
+	return iterationCanSkipUnlessEdge(fi, S, excused, nil)
+}
+
+// iterationCanSkipUnlessEdge: additionally, edges (block, successor index) can be excused (a `continue` that jumps
+// straight back to the loop header has no block of its own).
+func iterationCanSkipUnlessEdge(fi *fnInfo, S *ssa.BasicBlock, excused func(*ssa.BasicBlock) bool, excusedEdge func(*ssa.BasicBlock, int) bool) bool {
 	if !fi.reachable(S, S) {
 		return false
 	}
@@ -1302,7 +1308,7 @@ func iterationCanSkipUnless(fi *fnInfo, S *ssa.BasicBlock, excused func(*ssa.Bas
 		var dfs func(x *ssa.BasicBlock) bool
 		dfs = func(x *ssa.BasicBlock) bool {
 			for k, sc := range x.Succs {
-				if deadEdge(x, k) || sc == S || excused(sc) {
+				if deadEdge(x, k) || sc == S || excused(sc) || excusedEdge != nil && excusedEdge(x, k) {
 					continue
 				}
 				if sc == B {
